@@ -929,7 +929,25 @@ pub fn replay(case: &Value) -> Value {
     };
     let eng = Engine::new(&cfg);
     if case["kind"] == "both-sides" {
-        return json!({"note": "replay of joint case: see materials_rules / products_rules", "violation": "both-sides"});
+        // re-execute the joint case on the real engine: verdict, and both queues through DISALLOW probes
+        let parse = |v: &Value| -> Vec<ArtifactRule> { v.as_array().map(|a| a.iter().filter_map(|r| serde_json::from_value(r.clone()).ok()).collect()).unwrap_or_default() };
+        let (rm, rp) = (parse(&case["materials_rules"]), parse(&case["products_rules"]));
+        let verdict = eng.apply(ItemKind::Step, &rm, &rp);
+        let mut queues = serde_json::Map::new();
+        for (name, arts) in [("materials-queue", &cfg.materials), ("products-queue", &cfg.products)] {
+            let mut q = vec![];
+            for path in arts.keys() {
+                let probe = ArtifactRule::Disallow(world::vpath(path));
+                let (mut m, mut p) = (rm.clone(), rp.clone());
+                if name == "materials-queue" { m.push(probe) } else { p.push(probe) }
+                if eng.apply(ItemKind::Step, &m, &p) == Ok(false) {
+                    q.push(path.clone());
+                }
+            }
+            queues.insert(name.into(), json!(q));
+        }
+        let differs = case.get("observed_side").and_then(|s| s.as_str()).map(|side| queues[side] != case["reference_queue"]);
+        return json!({"verdict": format!("{verdict:?}"), "observed_queues": queues, "reference_queue": case["reference_queue"], "violation": if differs == Some(true) { json!("both-sides-queue") } else if differs.is_none() { json!("both-sides") } else { Value::Null }});
     }
     let rules: Vec<Rule> = serde_json::from_value(case["rules_typed"].clone()).unwrap_or_default();
     let side = if case["side"] == "materials" { Side::Materials } else { Side::Products };
